@@ -20,8 +20,12 @@ pub(crate) static mut REC_CALLS: usize = 0;
 pub(crate) static mut REC_CUT: usize = usize::MAX;
 pub(crate) static mut REC_FINISHED: bool = false;
 
-pub(crate) fn rec_reset(cut: usize) { unsafe { REC_N = 0; REC_CALLS = 0; REC_CUT = cut; REC_FINISHED = false; } }
-fn rec_accept() -> bool { unsafe { let c = REC_CALLS; REC_CALLS += 1; c < REC_CUT } }
+pub(crate) fn rec_reset(cut: usize) { unsafe { REC_N = 0; REC_CALLS = 0; REC_CUT = cut; REC_FINISHED = false; REC_PATTERN = u32::MAX; } }
+pub(crate) fn rec_reset_pattern(pattern: u32) { unsafe { REC_N = 0; REC_CALLS = 0; REC_CUT = usize::MAX; REC_FINISHED = false; REC_PATTERN = pattern; } }
+/// acceptance pattern (bit i = the i-th try_add_* call is accepted); u32::MAX = use the REC_CUT prefix model.
+/// A concrete pattern is a *shape*: it also covers "a large op is refused, a later smaller one fits".
+pub(crate) static mut REC_PATTERN: u32 = u32::MAX;
+fn rec_accept() -> bool { unsafe { let c = REC_CALLS; REC_CALLS += 1; if REC_PATTERN == u32::MAX { c < REC_CUT } else { c < 32 && (REC_PATTERN >> c) & 1 == 1 } } }
 fn rec_push(op: RecOp) { unsafe { if REC_N >= REC_CAP { kani::assume(false); } REC[REC_N] = op; REC_N += 1; } }
 fn first_byte(s: &str) -> u8 { if s.is_empty() { 0 } else { s.as_bytes()[0] } }
 
